@@ -258,6 +258,43 @@ def aliases(ctx, rng):
                 ctx.event("conflicting_redeclaration_rejected")
         except Exception as e:  # noqa: BLE001
             ctx.violation("alias", f"alias-workload-raises:{type(e).__name__}", {"text": text, "error": lib.exc_sig(e)})
+    # re-declaring a built-in synonym (a string reference in the type table) for its own target is accepted,
+    # for another target it is rejected; the same through the API
+    for a, c in sorted(gen.INT_ALIASES.items()):
+        if " " in a:
+            continue
+        ctx.evaluation(("redeclare-builtin", a))
+        ctx.cell("redeclare-builtin")
+        try:
+            cs = lib.load(f"typedef {c} {a};\nstruct T {{ {a} x; }};")
+            if cs.resolve(a) is not cs.resolve(c):
+                ctx.violation("alias", "redeclared-builtin-synonym-resolves-elsewhere", {"alias": a, "target": c})
+        except Exception as e:  # noqa: BLE001
+            ctx.violation("alias", f"same-target-redeclaration-of-builtin-synonym-rejected:{type(e).__name__}",
+                          {"alias": a, "target": c, "error": lib.exc_sig(e)})
+        other = "uint64" if gen.ALL_INTS[c][0] != 8 else "uint8"
+        try:
+            lib.load(f"typedef {other} {a};")
+            ctx.violation("alias", "builtin-synonym-redeclared-with-another-target", {"alias": a, "target": other})
+        except ValueError:
+            ctx.event("conflicting_redeclaration_rejected")
+        except Exception as e:  # noqa: BLE001
+            ctx.violation("alias", f"conflicting-redeclaration-not-a-ValueError:{type(e).__name__}", {"alias": a})
+    cs = lib.cstruct()
+    try:
+        cs.add_type("al_a", "uint8")
+        cs.add_type("al_b", "al_a")
+        cs.add_type("al_b", "BYTE")      # same target through another chain
+        cs.add_type("al_b", cs.uint8)
+        if cs.resolve("al_b") is not cs.uint8:
+            ctx.violation("alias", "api-alias-chain-resolves-elsewhere", {})
+        try:
+            cs.add_type("al_b", "uint16")
+            ctx.violation("alias", "api-redeclaration-with-different-target-accepted", {})
+        except ValueError:
+            pass
+    except Exception as e:  # noqa: BLE001
+        ctx.violation("alias", f"api-same-target-redeclaration-rejected:{type(e).__name__}", {"error": lib.exc_sig(e)})
     # unknown and cyclic aliases
     for text in ["struct T { nosuchtype a; };", "typedef nosuch X;", "struct T { uint8 a; struct missing b; };"]:
         ctx.evaluation(("unknown", text))
